@@ -463,6 +463,21 @@ impl Deb822 {
             } else {
                 paragraph.1
             };
+            // A paragraph whose last line is unterminated (end of input) may now
+            // be followed by another one: terminate it, or the two would merge
+            let new_paragraph = if new_paragraph
+                .0
+                .last_token()
+                .is_some_and(|t| t.kind() != NEWLINE)
+            {
+                let copy = Paragraph(SyntaxNode::new_root_mut(
+                    new_paragraph.0.green().into_owned(),
+                ));
+                copy.ensure_trailing_newline();
+                copy
+            } else {
+                new_paragraph
+            };
             inject(&mut builder, new_paragraph.0);
         }
 
